@@ -82,11 +82,13 @@ def cholesky(a):
         s_ = a[j, j]
         for k in range(j):
             s_ = s_ - L[j, k] * L[j, k]
-        d = SV.lift(s_)
+        d = s_ if hasattr(s_, "sqrt") else SV.lift(s_)
         # contract: input positive definite => pivot > 0
-        cur().add_side(d.e > 0)
+        dv = d.v if hasattr(d, "v") else d
+        cur().add_side(dv.e > 0)
         L[j, j] = d.sqrt()
-        cur().add_side(L[j, j].e > 0)
+        lv = L[j, j].v if hasattr(L[j, j], "v") else L[j, j]
+        cur().add_side(lv.e > 0)
         for i in range(j + 1, n):
             s_ = a[i, j]
             for k in range(j):
